@@ -267,6 +267,79 @@ def _work(item):
     return (fname, c19.label_of(cch), c19.label_of(sch), "run", fails, sig)
 
 
+RESUME_CASES = [
+    ("SSLv3-id", (3, 0), "TLS_RSA_WITH_AES_128_CBC_SHA", "id"),
+    ("TLS1.0-id", (3, 1), "TLS_RSA_WITH_AES_128_CBC_SHA", "id"),
+    ("TLS1.1-id", (3, 2), "TLS_DHE_RSA_WITH_AES_128_CBC_SHA", "id"),
+    ("TLS1.2-id", (3, 3), "TLS_ECDHE_RSA_WITH_AES_128_GCM_SHA256", "id"),
+    ("TLS1.2-ticket", (3, 3), "TLS_ECDHE_RSA_WITH_AES_128_GCM_SHA256",
+     "ticket"),
+    ("TLS1.2-ticket-cbc", (3, 3), "TLS_RSA_WITH_AES_256_CBC_SHA256",
+     "ticket"),
+    ("TLS1.3-psk", (3, 4), "TLS_AES_128_GCM_SHA256", "ticket"),
+    ("TLS1.3-psk-384", (3, 4), "TLS_AES_256_GCM_SHA384", "ticket"),
+]
+
+
+def resume_case(item):
+    """The same agreement on a *resumed* connection: full handshake, then a
+    second connection offering the session; both ends of the second
+    connection must hold identical views (incl. exported keying material)
+    and the negotiated parameters of the first."""
+    ri, variant, seed = item
+    name, version, sname, mech = RESUME_CASES[ri]
+    from tlslite.constants import CipherSuite as CS
+    ckw = {"serverName": "example.test", "alpn": [b"h2", b"http/1.1"]}
+    skw = {"alpn": [b"http/1.1", b"h2"]}
+    sc = S.Scen("c03/resume-" + name, version=version,
+                suite=getattr(CS, sname), cred="rsa",
+                client_cred="c_rsa" if variant == "clientauth" else None,
+                req_cert=variant == "clientauth", cache=(mech == "id"),
+                tickets=(mech == "ticket"), ckw=ckw, skw=skw)
+    cache = W.SessionCache() if mech == "id" else None
+    pair, out = S.connect(sc, seed=seed, cache=cache)
+    fails = []
+    if not (out["C"].status == "ok" and out["S"].status == "ok"):
+        return name, variant, None, ["first handshake failed: %r" % (out,)]
+    pair.write("S", b"x")
+    pair.read("C", None, 1)         # TLS 1.3 tickets arrive with the data
+    v1 = W.view(pair.c)
+    sess = pair.c.session
+    pair.close("C")
+    pair.read("S", None, 1)
+    sc2 = sc
+    if variant == "no-alpn":
+        sc2 = S.Scen(sc.name, version=version, suite=sc.suite, cred="rsa",
+                     cache=sc.cache, tickets=sc.tickets,
+                     ckw={"serverName": "example.test"}, skw=skw)
+    pair2, out2 = S.connect(sc2, seed=seed + 1, session=sess, cache=cache)
+    if not (out2["C"].status == "ok" and out2["S"].status == "ok"):
+        return name, variant, None, ["second handshake failed: %r" % (out2,)]
+    resumed = bool(pair2.c.resumed)
+    vc, vs = W.view(pair2.c), W.view(pair2.s)
+    # no certificates are exchanged on a resumed connection: the chains are
+    # C13's subject there (identity carried over), not an agreement item
+    keys = tuple(k for k in W.SHARED_VIEW_KEYS if not resumed or k not in (
+        "serverChain", "clientChain"))
+    for (k, a, b) in W.views_equal(vc, vs, keys=keys):
+        fails.append("%s connection: views differ on %s: client %r server "
+                     "%r" % ("resumed" if resumed else "second", k,
+                             str(a)[:40], str(b)[:40]))
+    if resumed:
+        for k in ("version", "suite", "ems", "serverName"):
+            if vs.get(k) != v1.get(k):
+                fails.append("resumed connection changed %s: %r -> %r" % (
+                    k, v1.get(k), vs.get(k)))
+        if version < (3, 4) and vc.get("etm") != v1.get("etm"):
+            fails.append("resumed connection changed etm")
+    pair2.write("C", b"ping")
+    r = pair2.read("S", None, 4)
+    if r.status != "ok" or bytes(r.value) != b"ping":
+        fails.append("data after resumption: %r" % (r,))
+    return name, variant, ("resumed" if resumed else "full",
+                           vc.get("appProto")), fails
+
+
 def run(res, tier, seed):
     res.coverage["rule"] = (
         "pairs (client settings, server settings) with <=1 changed dimension "
@@ -306,6 +379,24 @@ def run(res, tier, seed):
                           {"flavour": fname, "client": la, "server": lb})
     res.section("pairs", pairs=n, completed_on_both=done,
                 flavours=len(FLAVOURS), singles=len(singles))
+    ritems = [(ri, var, seed) for ri in range(len(RESUME_CASES))
+              for var in ("plain", "no-alpn", "clientauth")]
+    nres = 0
+    for (name, var, sig, fails) in pmap(resume_case, ritems):
+        n += 1
+        res.count()
+        res.outcome(("resume", name, var, sig))
+        if sig and sig[0] == "resumed":
+            nres += 1
+        for f in fails:
+            res.violation({"part": "resumed", "case": name, "variant": var,
+                           "what": f[:60]}, {"fail": f, "sig": sig},
+                          {"resume_case": name, "variant": var})
+    res.section("resumed_connections", cases=len(ritems), resumed=nres)
+    if nres < len(RESUME_CASES):
+        res.violation({"part": "resumed", "what": "vacuous"},
+                      {"fail": "only %d of %d cases resumed" % (
+                          nres, len(ritems))}, None)
     res.coverage["distinct_nontrivial"] = n - len(FLAVOURS)
     res.assumptions.append(
         "serverSigAlg/ecdhCurve/dhGroupSize are policy-checked only on the "
